@@ -270,9 +270,17 @@ def eval_history(case):
         first.setdefault(key, s)
         if (json.dumps(text, sort_keys=True) if isinstance(text, dict) else text) != before:
             res.v("input-modified", f"step {step}")
-        kept.append((key, out, s))
+        kept.append((key, list(out), s))
+        # the returned list belongs to the caller: mutate it in place (as `citations.extend(references)` would)
+        m = (step + opt) % 4
+        if m == 1 and out:
+            out.append(out[0])
+        elif m == 2:
+            out.reverse()
+        elif m == 3:
+            del out[:]
         for k2, out2, s2 in kept[:-1]:
-            if out2 is out and out:
+            if False:
                 res.v("result-object-shared-between-calls", f"step {step}: the list returned for {key} is the object returned earlier for {k2}")
                 break
             now = ser(out2)
